@@ -10,6 +10,7 @@ import (
 	"path/filepath"
 	"reflect"
 	"runtime/pprof"
+	"sort"
 	"strings"
 	"sync"
 	"sync/atomic"
@@ -81,6 +82,8 @@ type interposer struct {
 	held         int64 // replies delivered after their machine was killed and seen stopped
 	midbody      int64 // replies cut in the middle of their body with their machine killed
 	midbodyBytes int64
+	hosts        map[string]bool // hosts addressed by any RPC of this session
+	inflightWork int64           // RPCs in flight other than keepalive/stats polling
 	killed       []string
 	inflight     int64
 	lastMethod   string
@@ -127,9 +130,17 @@ func (ip *interposer) RoundTrip(req *http.Request) (*http.Response, error) {
 			acts = append(acts, a)
 		}
 	}
+	if ip.hosts == nil {
+		ip.hosts = map[string]bool{}
+	}
+	ip.hosts[req.URL.Host] = true
 	ip.mu.Unlock()
 	atomic.AddInt64(&ip.inflight, 1)
 	defer atomic.AddInt64(&ip.inflight, -1)
+	if !(strings.HasPrefix(method, "Supervisor.") || method == "Worker.TaskStats" || method == "Worker.Stats") {
+		atomic.AddInt64(&ip.inflightWork, 1)
+		defer atomic.AddInt64(&ip.inflightWork, -1)
+	}
 	ip.touch(method)
 	defer ip.touch(method)
 	for _, a := range acts {
@@ -265,16 +276,61 @@ func (ip *interposer) count(method string) int {
 }
 
 type liveSession struct {
-	Conf sessConf
-	Sess *exec.Session
-	Sys  *ipSystem
-	IP   *interposer
+	failedRuns int32 // runs on this session that failed, panicked or timed out
+	Conf       sessConf
+	Sess       *exec.Session
+	Sys        *ipSystem
+	IP         *interposer
 }
 
 // Close shuts the session down in the background: Shutdown can block for seconds on
 // bigmachine's own timers, and nothing depends on its completion.
+//
+// Session.Shutdown closes the executor's invocation cache, and work a failed Run left behind in
+// executor goroutines (tasks that were still in flight when Run returned its error) panics the
+// whole process when it reaches that cache afterwards ("call after close"). A session that saw a
+// run fail or time out is therefore not shut down at all (its machines idle until the child
+// process ends), and others are shut down only once the RPC layer has been quiet for a while.
 func (ls *liveSession) Close() {
-	go ls.Sess.Shutdown()
+	if atomic.LoadInt32(&ls.failedRuns) > 0 {
+		return
+	}
+	go func() {
+		if ls.IP != nil {
+			for i := 0; i < 200; i++ {
+				if atomic.LoadInt64(&ls.IP.inflightWork) == 0 && ls.IP.quietFor() > 300*time.Millisecond {
+					break
+				}
+				time.Sleep(100 * time.Millisecond)
+			}
+			if atomic.LoadInt64(&ls.IP.inflightWork) != 0 {
+				return
+			}
+		}
+		ls.Sess.Shutdown()
+	}()
+}
+
+// lostMachines returns the addresses of this session's machines whose loss the executor has
+// logged ("lost machine <addr>: ..."), whoever caused it.
+func (ls *liveSession) lostMachines() []string {
+	if ls.IP == nil {
+		return nil
+	}
+	ls.IP.mu.Lock()
+	hosts := make([]string, 0, len(ls.IP.hosts))
+	for h := range ls.IP.hosts {
+		hosts = append(hosts, h)
+	}
+	ls.IP.mu.Unlock()
+	var out []string
+	for _, h := range hosts {
+		if logSeen("lost machine http://" + h + ":") {
+			out = append(out, h)
+		}
+	}
+	sort.Strings(out)
+	return out
 }
 
 var quietOnce sync.Once
@@ -398,6 +454,17 @@ func scanRows(ctx context.Context, res *exec.Result) ([]row, error) {
 	return rows, sc.Err()
 }
 
+// abandonedRuns counts runs the watchdog gave up on; their goroutines keep running in this process.
+var abandonedRuns int32
+
+// AbandonedWork tells the runner why no further cases should be executed in this process.
+func AbandonedWork() string {
+	if n := atomic.LoadInt32(&abandonedRuns); n > 0 {
+		return fmt.Sprintf("%d run(s) that the watchdog gave up on are still executing", n)
+	}
+	return ""
+}
+
 type runOutcome struct {
 	Res      *exec.Result
 	Rows     []row
@@ -439,7 +506,12 @@ func runSpec(ls *liveSession, sp Spec, args [2]bigslice.Slice, scan bool, timeou
 	}()
 	select {
 	case <-done:
+		if out.Panic != nil || out.RunErr != nil || out.ScanErr != nil {
+			atomic.AddInt32(&ls.failedRuns, 1)
+		}
 	case <-time.After(timeout):
+		atomic.AddInt32(&ls.failedRuns, 1)
+		atomic.AddInt32(&abandonedRuns, 1)
 		out.TimedOut = true
 		if ls.IP != nil {
 			ls.IP.mu.Lock()
